@@ -10,7 +10,7 @@ const char * vf_harness_name = "c17_string";
 typedef vf::BS BS;
 #define FAIL(...) vf::Fail(__VA_ARGS__)
 struct Ctx {bool crossed; bool alias; uint64_t h; uint32 nops; std::string trace; bool wantTrace;};
-static Ctx g_cx; static std::string g_prevLonger; static uint32 g_residueNeedles = 0;
+static Ctx g_cx; static std::string g_prevLonger; static uint32 g_residueNeedles = 0; static uint32 g_highByteCharTests = 0;
 static const uint32 LENS[] = {0,1,2,7,14,15,16,17,31,32,33,64};
 static std::string Gen(BS & bs) {const uint32 len = LENS[bs.u8()%12]; std::string r; const uint8_t mode = bs.u8()%4; for (uint32 i=0;i<len;i++) {char c; switch(mode) {case 0: c = 'a'+(char)(i%3); break; case 1: c = "ab "[bs.u8()%3]; break; case 2: c = (char)(0xC3+(i&1)*0x66); break; default: c = "aAbB. \t"[bs.u8()%7]; break;} r.push_back(c);} return r;}
 static void Cmp(const String & s, const std::string & m, const char * after)
@@ -24,7 +24,7 @@ extern "C" int vf_run_case(const uint8_t * data, size_t size)
 {
    static CompleteSetupSystem * css = NULL; if (css == NULL) css = new CompleteSetupSystem;
    BS bs(data, size);
-   g_prevLonger.clear(); g_residueNeedles = 0;
+   g_prevLonger.clear(); g_residueNeedles = 0; g_highByteCharTests = 0;
    Ctx & cx = g_cx; cx.crossed = cx.alias = false; cx.h = 7; cx.nops = 0; cx.trace.clear(); cx.wantTrace = vf::WantSample();
    String s, t; std::string m, mt;
    int steps = 0;
@@ -113,6 +113,23 @@ extern "C" int vf_run_case(const uint8_t * data, size_t size)
              if (s.IndexOf(es, a) != e) FAIL("IndexOf(String [%s], %u) = %d, expected %d in [%s]", vf::Esc(exact).c_str(), a, s.IndexOf(es, a), e, vf::Esc(m).c_str()); if (s.Contains(es, a) != (e >= 0)) FAIL("Contains(String, %u)", a);
              if (s.StartsWith(es) != ((m.size() >= exact.size())&&(m.compare(0, exact.size(), exact) == 0))) FAIL("StartsWith(String)"); if (s.EndsWith(es) != ((m.size() >= exact.size())&&(m.compare(m.size()-exact.size(), exact.size(), exact) == 0))) FAIL("EndsWith(String)");}
             {const char c = g[0]; const char lc = ((c >= 'A')&&(c <= 'Z')) ? (char)(c+32) : c; size_t f = std::string::npos; for (size_t i=a; i<lm.size(); i++) if (lm[i] == lc) {f = i; break;} if (s.IndexOfIgnoreCase(c, a) != ((f == std::string::npos) ? -1 : (int)f)) FAIL("IndexOfIgnoreCase(char '%c', %u)", c, a);}
+            {
+               // the char-typed tests, asked about the String's own first and last byte (any byte value, multi-byte characters included), their case-flipped twins and a foreign byte
+               auto low = [](char ch) {return ((ch >= 'A')&&(ch <= 'Z')) ? (char)(ch+32) : ch;};
+               const char probes[5] = {m.size() ? m[0] : 'a', m.size() ? m[m.size()-1] : 'a', g[0], (char)((m.size() ? m[0] : 'a')^0x20), (char)((m.size() ? m[m.size()-1] : 'a')^0x20)};
+               for (int pi=0; pi<5; pi++)
+               {
+                  const char pc = probes[pi]; if (pc == '\0') continue; const bool letter = ((low(pc) >= 'a')&&(low(pc) <= 'z'));
+                  if ((pi >= 3)&&(letter == false)) continue;     // flipping bit 5 only means "other case" for letters
+                  if (s.StartsWith(pc) != ((m.size() > 0)&&(m[0] == pc))) FAIL("StartsWith(char 0x%02x) on [%s]", (unsigned)(uint8_t)pc, vf::Esc(m).c_str());
+                  if (s.EndsWith(pc) != ((m.size() > 0)&&(m[m.size()-1] == pc))) FAIL("EndsWith(char 0x%02x) on [%s]", (unsigned)(uint8_t)pc, vf::Esc(m).c_str());
+                  if (s.Equals(pc) != ((m.size() == 1)&&(m[0] == pc))) FAIL("Equals(char 0x%02x) on [%s]", (unsigned)(uint8_t)pc, vf::Esc(m).c_str());
+                  if (s.StartsWithIgnoreCase(pc) != ((m.size() > 0)&&(low(m[0]) == low(pc)))) FAIL("StartsWithIgnoreCase(char 0x%02x) on [%s]", (unsigned)(uint8_t)pc, vf::Esc(m).c_str());
+                  if (s.EndsWithIgnoreCase(pc) != ((m.size() > 0)&&(low(m[m.size()-1]) == low(pc)))) FAIL("EndsWithIgnoreCase(char 0x%02x) on [%s]", (unsigned)(uint8_t)pc, vf::Esc(m).c_str());
+                  if (s.EqualsIgnoreCase(pc) != ((m.size() == 1)&&(low(m[0]) == low(pc)))) FAIL("EqualsIgnoreCase(char 0x%02x) on [%s]", (unsigned)(uint8_t)pc, vf::Esc(m).c_str());
+                  if ((uint8_t)pc >= 0x80) g_highByteCharTests++;
+               }
+            }
             if ((src == 0)&&(g_prevLonger.size() > m.size())) g_residueNeedles++;
          }
          break;
@@ -168,7 +185,7 @@ extern "C" int vf_run_case(const uint8_t * data, size_t size)
       if ((cx.wantTrace)&&(cx.trace.size() < 1000)) {cx.trace += name; cx.trace += "; ";}
    }
    vf::Count("ops", cx.nops);
-   if (cx.crossed) vf::Count("case_crossing_small_buffer_boundary"); if (g_residueNeedles) vf::Count("case_search_for_bytes_left_behind_the_terminator");
+   if (cx.crossed) vf::Count("case_crossing_small_buffer_boundary"); if (g_residueNeedles) vf::Count("case_search_for_bytes_left_behind_the_terminator"); if (g_highByteCharTests) vf::Count("case_char_typed_test_with_a_byte_above_0x7f");
    if (cx.alias) vf::Count("case_with_aliasing_operand");
    if ((cx.crossed)||(cx.alias)) {vf::NonTrivial(cx.h); if (cx.wantTrace) vf::Sample(cx.trace+" => ["+vf::Esc(m.substr(0, 80))+"]");}
    return 0;
